@@ -29,8 +29,37 @@ package vm
 
 // Frames of the code-loading helpers (assumed; they do not touch the os field: see the scan above).
 //@ func (*VirtualMachine).loadCode
-//@ trusted
+//@ trusted except C14.load.own C14.load.cached
+//@ props C14
 //@ modcomps H_vm_VirtualMachine_loadedCode H_vm_code_ H_sync_ M E_ -MD_string_Pobject_Module -MV_string_Pobject_Module
+// C14: the code of a function is bound to the globals array of ITS OWN root code (the module or script it was compiled
+// in), whoever calls it first: a function of an imported module reads and writes that module's variables, not the
+// same-numbered slots of the importing script (seed C14e bound a callee to the caller's globals on its first call).
+//@ assume[recv.nonnil] vm != nil && cc != nil
+//@ ensures[C14.load.cached] old(haskey(vm.loadedCode, cc)) ==> result == old(vm.loadedCode[cc])
+//@ ensures[C14.load.own] !old(haskey(vm.loadedCode, cc)) && uf("code.root", *compiler.Code, cc) != cc && old(vm.loadedCode[uf("code.root", *compiler.Code, cc)]) != nil ==> result != nil && same(result.Globals, old(vm.loadedCode[uf("code.root", *compiler.Code, cc)].Globals))
+//@ ensures result != nil && haskey(vm.loadedCode, cc) && vm.loadedCode[cc] == result
+
+// Frame of (*frame).ActivateFunction (assumed): it writes fields of the frame and elements of object slices (the
+// frame's local variables), nothing of a vm.code object.
+//@ func (*frame).ActivateFunction
+//@ trusted
+//@ modcomps H_vm_frame_ E_object_Object
+
+// activateFunction runs a function on the code object loadCode answers for the function's own code: the cached one, or
+// one bound to the globals of the function's root code.
+//@ func (*VirtualMachine).activateFunction
+//@ props C14
+//@ assume[args.wf] vm != nil && fn != nil && fn.code != nil && 0 <= fp && fp < 1024
+//@ let croot = uf("code.root", *compiler.Code, fn.code)
+//@ ensures[C14.activate.cached] old(haskey(vm.loadedCode, fn.code)) ==> vm.activeCode == old(vm.loadedCode[fn.code])
+//@ ensures[C14.activate.own] !old(haskey(vm.loadedCode, fn.code)) && croot != fn.code && old(vm.loadedCode[croot]) != nil ==> vm.activeCode != nil && same(vm.activeCode.Globals, old(vm.loadedCode[croot].Globals))
+
+//@ func loadChildCode
+//@ props C14
+//@ requires root != nil && cc != nil
+//@ modifies nothing
+//@ ensures[C14.child.globals] result != nil && same(result.Globals, root.Globals)
 //@ func (*VirtualMachine).activateCode
 //@ trusted
 //@ modcomps H_vm_VirtualMachine_fp H_vm_VirtualMachine_ip H_vm_VirtualMachine_activeFrame H_vm_VirtualMachine_activeCode H_vm_VirtualMachine_frames H_vm_frame_ E_
@@ -267,11 +296,15 @@ package vm
 // calls pops what a successful deferred call pushed, so running the defers never raises the stack - whatever kind of
 // callable was deferred (a script function, a builtin, a bound method, a partial).
 //@ func (*VirtualMachine).push
-//@ props C04
+//@ props C04 C07
 //@ requires vm != nil
 //@ assume[vm.stack.bounds] -1 <= vm.sp && vm.sp < 1023
 //@ modifies vm.sp, vm.stack
 //@ ensures[C04.vm.push] vm.sp == old(vm.sp) + 1
+// C07: the stack pointer is advanced only once the slot it will point at holds the pushed value. The store into the
+// slot is what panics when the stack is full, so an overflow (recovered further up) leaves sp in range and the
+// deferred resumeFrame calls and later Calls on the VM find a usable stack (KF-76 fixed: push advanced sp first).
+//@ storeguard[C07.push.order] VirtualMachine.sp: value == old(vm.sp) + 1 && vm.stack[value] == obj
 
 //@ func (*VirtualMachine).pop
 //@ props C04
